@@ -66,6 +66,8 @@ type Ctx struct {
 	Foreign     int64
 	start       time.Time
 	Deadline    time.Time
+	SpecBudget  time.Duration // per-search slice of the wall-clock cap (0 = none)
+	specEnd     time.Time
 	MaxViol     int
 	Quiet       bool
 	ReplayFile  string
@@ -180,8 +182,23 @@ func (c *Ctx) Add(states, transitions, traces, evals int64) {
 }
 
 func (c *Ctx) Expired() bool {
-	return !c.Deadline.IsZero() && time.Now().After(c.Deadline)
+	now := time.Now()
+	if !c.specEnd.IsZero() && now.After(c.specEnd) {
+		return true
+	}
+	return !c.Deadline.IsZero() && now.After(c.Deadline)
 }
+
+// BeginSpec starts the per-search time slice.
+func (c *Ctx) BeginSpec() {
+	c.specEnd = time.Time{}
+	if c.SpecBudget > 0 {
+		c.specEnd = time.Now().Add(c.SpecBudget)
+	}
+}
+
+// Budget returns the wall-clock cap of the whole run.
+func (c *Ctx) Budget() time.Duration { return c.Deadline.Sub(c.start) }
 
 func sigFile(sig string) string {
 	h := sha1.Sum([]byte(sig))
